@@ -1,7 +1,7 @@
 """C02 — Coq theorems over coq/Model/Pool.v (lists regenerated from the source) + simulation of the real executor code with monitors."""
 from checks import simcommon as S
 
-FAMILIES = ['kill', 'fatal', 'latekill', 'resize', 'idlefatal', 'cancelfail']
+FAMILIES = ['kill', 'fatal', 'latekill', 'resize', 'idlefatal', 'cancelfail', 'busyfatal']
 PER_FAMILY = (300, 6000)
 
 
@@ -93,7 +93,12 @@ def round_differential(ctx):
                         return ([rd] if rr else []) + ([wk._reader] if wr else []) + [proc.sentinel]
                     pe.wait = fake_wait
                     pe.get_exitcodes_terminated_worker = lambda procs: "{SIGKILL(-9)}"
-                    item, broken, bpe = pe._ExecutorManagerThread.wait_result_broken_or_wakeup(me)
+                    try:
+                        item, broken, bpe = pe._ExecutorManagerThread.wait_result_broken_or_wakeup(me)
+                    except BaseException as e:  # noqa  (the method no longer runs on the stub: it reads state the generated program does not know)
+                        pe.wait, pe.get_exitcodes_terminated_worker = saved_wait, saved_codes
+                        return {"ok": False, "rounds": 0, "against_the_property": [], "against_the_model": None,
+                                "error": f"wait_result_broken_or_wakeup cannot be run on the stub manager any more: {type(e).__name__}: {e}", "sample": None}
                     kind = None if bpe is None else ("BTerminatedWorker" if isinstance(bpe, pe.TerminatedWorkerError) else
                                                      "BTaskUnserialize" if "task has failed to un-serialize" in str(bpe) else
                                                      "BResultUnserialize" if "result has failed to un-serialize" in str(bpe) else "?")
@@ -154,7 +159,7 @@ def run(ctx):
         rp = vlib.write_replay(ctx, "round", {"kind": "the generated wait program and the real wait_result_broken_or_wakeup differ (or the comparison did not run)", "detail": rd})
         ctx.violations.append(("wait decision: model and implementation differ" if rd["against_the_model"] else "wait decision comparison did not run: " + str(rd["error"])[:100],
                                rp, not rd["against_the_model"]))
-    return S.sim_check(ctx, FAMILIES, FAMILIES, PER_FAMILY, S.SIM_ASSUME, proof=PROOF, extra_cov=extra)
+    return S.sim_check(ctx, FAMILIES, FAMILIES, PER_FAMILY, S.SIM_ASSUME, proof=PROOF, extra_cov=extra, weights={'busyfatal': 4})
 
 
 def replay(ctx, path):
